@@ -813,7 +813,8 @@ func (cfg *Config) listElems(pe *syntax.ParamExp) (elems []string, star, ok bool
 		case Indexed:
 			return cfg.sliceElems(pe, vr.List, vr.Indexes, false), lit == "*", true
 		case Associative:
-			return slices.Sorted(maps.Values(vr.Map)), lit == "*", true
+			// never nil: wordFields reads a nil slice as "not a list expansion"
+			return append([]string{}, slices.Sorted(maps.Values(vr.Map))...), lit == "*", true
 		}
 	}
 	return nil, false, false
@@ -850,7 +851,7 @@ func (cfg *Config) quotedElemFields(pe *syntax.ParamExp) ([]string, error) {
 			case Indexed:
 				return vr.indexedKeys(), nil
 			case Associative:
-				return slices.Collect(maps.Keys(vr.Map)), nil
+				return append([]string{}, slices.Collect(maps.Keys(vr.Map))...), nil
 			}
 		}
 		return nil, nil
